@@ -15,6 +15,7 @@
     shape before the fix (kept for the as-found counterexamples).
 -/
 import DiskfsModel.Core.Bytes
+import DiskfsModel.Model.Gpt
 namespace Diskfs.Parsers
 
 inductive Out (α : Type) where
@@ -323,13 +324,16 @@ deriving Repr, DecidableEq
 
 /-- switches for the two defects found while building this model (see known_findings.json):
     `er` = parseSystemUseExtensionExtensionsReference checks `len(b) >= 8` before reading b[4..7];
-    `joliet` = parseDirEntriesJoliet checks that a record lies inside the directory bytes -/
+    `joliet` = parseDirEntriesJoliet checks that a record lies inside the directory bytes;
+    and for one found by C06 (iso-joliet-nonbmp-name): `utf16` = bytesToUCS2String decodes UTF-16
+    (a surrogate pair is one code point) instead of one rune per 16-bit unit -/
 structure Cfg where
   er : Bool
   joliet : Bool
+  utf16 : Bool := false
 deriving Repr, DecidableEq
 
-def Cfg.fixed : Cfg := ⟨true, true⟩
+def Cfg.fixed : Cfg := { er := true, joliet := true, utf16 := true }
 
 def sigOf (a b : Char) : Bytes := [UInt8.ofNat a.toNat, UInt8.ofNat b.toNat]
 
@@ -422,6 +426,17 @@ def ucs2 : Bytes → List Nat
     let v := a.toNat * 256 + b.toNat
     (if 0xD800 ≤ v ∧ v ≤ 0xDFFF then 0xFFFD else v) :: ucs2 rest
 
+/-- the 16-bit units `bytesToUCS2String` collects (big endian; a trailing odd byte is a unit of its own) -/
+def units16 : Bytes → List Nat
+  | [] => []
+  | [a] => [a.toNat]
+  | a :: b :: rest => (a.toNat * 256 + b.toNat) :: units16 rest
+
+/-- `bytesToUCS2String` of the tree: `utf16.Decode` over the units once repaired (the mirror of
+    unicode/utf16 is the GPT name field's), one rune per unit as found -/
+def jolietRunes (utf16 : Bool) (b : Bytes) : List Nat :=
+  if utf16 then Gpt.utf16Dec (units16 b) else ucs2 b
+
 structure DirRec where
   ext : Nat
   loc : Nat
@@ -463,7 +478,7 @@ def dirEntryFromBytes (cfg : Cfg) (joliet : Bool) (b : GS) (fuel : Nat) : Out Di
         pure { ext := ext, loc := loc, size := size, date := date.bytes, flags := flags % 32 + (if flags ≥ 128 then 128 else 0),
                volSeq := volSeq, isSelf := isSelf, isParent := isParent,
                name := if special || joliet then [] else nameBytes.bytes,
-               runes := if !special && joliet then ucs2 nameBytes.bytes else [],
+               runes := if !special && joliet then jolietRunes cfg.utf16 nameBytes.bytes else [],
                susp := susp }
 
 /-- `parseDirEntry(b, f)` for a filesystem without SUSP: `none` is the `nil, nil` return -/
